@@ -65,8 +65,16 @@ func sinkIndex(name string) int {
 }
 
 // program returns the ECAL text; l is the loop count of the sink bodies.
-func program(l int) string {
+func program(l int) string { return programT(l, false) }
+
+// programT: with tally every invocation also counts itself in a global
+// variable inside a mutex block - one invocation writes the scope the sinks
+// were declared in while the others resolve names (c11f, c11g) in it.
+func programT(l int, tally bool) string {
 	var b strings.Builder
+	if tally {
+		b.WriteString("c11g := 0\n")
+	}
 	b.WriteString("func c11f(x) {\n    let y := x * 2\n    return y + 1\n}\n")
 	for k := 0; k < nSinks; k++ {
 		fmt.Fprintf(&b, "sink %s\n    kindmatch [ %q ],\n    priority %d\n{\n", sinkNames[k], sinkKind[k], sinkPrio[k])
@@ -90,11 +98,11 @@ func program(l int) string {
     }
     fb := c11f(b + s)
     c11.rec(%d, event.state.id, a, b, fa, fb, s, event.name, event.kind)
-    if event.state.f%d {
+%s    if event.state.f%d {
         raise(event.state.et, a, [b, %d])
     }
 }
-`, l, k, k, k)
+`, l, k, map[bool]string{true: "    mutex c11m {\n        c11g := c11g + 1\n    }\n", false: ""}[tally], k, k)
 	}
 	return b.String()
 }
@@ -592,8 +600,9 @@ func noiseScenario(c *core.Ctx, stream string, idx int) {
 		}
 		s.table[fanRoot.id] = fanRoot
 	}
-	src := program(n.loopN)
-	c.Begin(0, stream, idx, fmt.Sprintf("%v", n.m()))
+	tally := c.Rng(stream+"-tally", idx).Bool()
+	src := programT(n.loopN, tally)
+	c.Begin(0, stream, idx, fmt.Sprintf("%v tally=%v", n.m(), tally))
 	defer c.End(0)
 	pre := c11kit.GoroutineSet()
 	env, err := c11kit.NewEnv("c11", src, n.workers, n.failFirst)
@@ -652,6 +661,14 @@ func noiseScenario(c *core.Ctx, stream string, idx int) {
 		return
 	}
 	env.Finish()
+	if tally {
+		g, _, _ := env.VS.GetValue("c11g")
+		if gf, _ := g.(float64); int64(gf) != atomic.LoadInt64(&s.echoes) {
+			all = append(all, mismatch{cat: "tally:lost-update", text: fmt.Sprintf("the global counter incremented by every invocation inside `mutex c11m` is %v after %d invocations", g, atomic.LoadInt64(&s.echoes))})
+		} else {
+			c.Event("tally.agrees", 1)
+		}
+	}
 	s.mu.Lock()
 	for _, u := range s.unknown {
 		all = append(all, mismatch{cat: "echo:unknown-event-id", text: u})
